@@ -106,14 +106,21 @@ Theorem C06_ibb_close_serve_progress : forall tr s,
 Proof. exact iw_serve_progress_run. Qed.
 Print Assumptions C06_ibb_close_serve_progress.
 
-(* ... the close request is answered whatever the writer is doing *)
+(* ... the close request is answered whatever the writer is doing (unless an
+   earlier data packet failed: then the close handler returns that stale error
+   and Serve ends — C06_ibb_close_ends_serve_only_after_failed_packet) *)
 Theorem C06_ibb_close_completes : forall s,
-  iw_v s = VClose ->
+  iw_v s = VClose -> iw_broken s = false ->
   exists s1, iw_step false s VTry = Some s1 /\
     (iw_v s1 = VIdle /\ iw_closed s1 = true \/
      exists s2, iw_step false s1 VFlushDone = Some s2 /\ iw_v s2 = VIdle /\ iw_closed s2 = true).
 Proof. exact iw_close_completes. Qed.
 Print Assumptions C06_ibb_close_completes.
+
+Theorem C06_ibb_close_ends_serve_only_after_failed_packet : forall tr s,
+  run (iw_step false) iw_init tr = Some s -> iw_v s = VEnded -> iw_broken s = true.
+Proof. exact iw_ended_only_broken_run. Qed.
+Print Assumptions C06_ibb_close_ends_serve_only_after_failed_packet.
 
 (* ... the writer can always go on, or waits for a reply the free serve goroutine can deliver *)
 Theorem C06_ibb_writer_progress : forall b s, iw_writer_waits b s.
